@@ -27,6 +27,7 @@ import numpy as np
 
 import tskit
 from . import provenance
+from . import util
 
 
 def legacy_position_transform(positions):
@@ -156,7 +157,7 @@ class VcfWriter:
                         "or not associated with any individuals"
                     )
         else:
-            individuals = np.array(individuals, dtype=np.int32)
+            individuals = util.safe_np_int_cast(individuals, np.int32)
             if len(individuals) == 0:
                 raise ValueError("List of sample individuals empty")
 
